@@ -262,7 +262,10 @@ func (m *Model) judgeFreezeWipe(c *Call, v *Verdict, args [][]byte, dstLocal boo
 	}
 	acc := m.acc(c.Shard, c.Rcv)
 	e := acc.entry(suffix)
-	if c.CallValue == 0 && !refIsSystemAccount(c.Rcv) && (c.Fn != refBuiltInFunctionESDTWipe || e.Frozen) {
+	// only a message that changes something has to be accepted: freezing a frozen holding or unfreezing one that is not
+	// frozen may be refused (the system contract does not know the shard's state and may repeat itself)
+	if c.CallValue == 0 && !refIsSystemAccount(c.Rcv) && ((c.Fn == refBuiltInFunctionESDTWipe && e.Frozen) ||
+		(c.Fn == refBuiltInFunctionESDTFreeze && !e.Frozen) || (c.Fn == refBuiltInFunctionESDTUnFreeze && e.Frozen)) {
 		props := pC04
 		if c.Fn == refBuiltInFunctionESDTWipe {
 			props = pC02
@@ -305,7 +308,8 @@ func (m *Model) judgePause(c *Call, v *Verdict, args [][]byte) {
 		return
 	}
 	pause := c.Fn == refBuiltInFunctionESDTPause
-	if c.CallValue == 0 {
+	if c.CallValue == 0 && m.Shards[c.Shard].PauseFlag[string(token)] != pause {
+		// (a pause of a paused token / an unpause of a token that is not paused changes nothing and may be refused)
 		cl := clause(pC04, c.Fn+"/system-message-refused", "a pause / unpause message from the ESDT system contract, addressed to this shard's system account, was refused: the token's pause state on this shard never follows the system contract")
 		v.MustSucceed = &cl
 	}
@@ -327,9 +331,15 @@ func (m *Model) judgeRoles(c *Call, v *Verdict, args [][]byte, dstLocal bool) {
 		return
 	}
 	acc := m.acc(c.Shard, c.Rcv)
-	if c.CallValue == 0 && !refIsSystemAccount(c.Rcv) {
+	changes := false
+	for _, r := range args[1:] {
+		if acc.hasRole(token, string(r)) != (c.Fn == refBuiltInFunctionSetESDTRole) {
+			changes = true
+		}
+	}
+	if c.CallValue == 0 && !refIsSystemAccount(c.Rcv) && changes {
 		// nothing in a system-contract role message can be wrong for the library: refusing it leaves the shard and
-		// the system contract's books apart for good
+		// the system contract's books apart for good (a message that would change nothing may be refused)
 		cl := clause(pC03, c.Fn+"/system-message-refused", "a role message from the ESDT system contract for an account on this shard was refused")
 		v.MustSucceed = &cl
 	}
